@@ -770,6 +770,39 @@ class Collab:
 
                 async def observe(self, name, value, labels=None):
                     me.metrics_calls.append(["observe", name, dict(labels or {})])
+        elif mode == "awaitable":
+            # asynchronous collaborators whose methods are plain `def`s handing back an object that is awaitable
+            # only through __await__ (neither a coroutine nor a Future: e.g. a lazy query object)
+            class Later:
+                def __init__(self, fn):
+                    self.fn = fn
+
+                def __await__(self):
+                    yield from asyncio.sleep(0).__await__()
+                    return self.fn()
+
+            class Roles:
+                def expand(self, roles):
+                    return Later(lambda: base_roles.expand(roles))
+
+            class Obl:
+                def check(self, raw, context):
+                    return Later(lambda: obl_check(raw, context))
+
+            class Rel:
+                def check(self, subject, relation, resource, *, context=None):
+                    return Later(lambda: rel_check(subject, relation, resource, context))
+
+            class Sink:              # sinks are called, not awaited, unless their method is an `async def`: stay sync
+                def log(self, payload):
+                    me.logs.append(copy.deepcopy(payload))
+
+            class Metrics:
+                def inc(self, name, labels=None):
+                    me.metrics_calls.append(["inc", name, dict(labels or {})])
+
+                def observe(self, name, value, labels=None):
+                    me.metrics_calls.append(["observe", name, dict(labels or {})])
         else:
             class Roles:
                 def expand(self, roles):
@@ -853,7 +886,7 @@ def run_flavours(case, T):
     policy = case["policy"]
     pol_before, pol_ids = copy.deepcopy(policy), idmap(policy)
     out = {"dec": {}, "logs": {}, "metrics": {}, "mut": []}
-    for mode in ("sync", "async"):
+    for mode in ("sync", "async", "awaitable"):
         col = Collab(case["collab"], mode)
         g = Guard(policy, **col.kw)
         for ri, req in enumerate(case["requests"]):
@@ -1794,7 +1827,7 @@ def judge_flavours(chk, c, r):
         ref_logs = r["logs"][f"sync/async_run/{ri}"]
         ref_metrics = r["metrics"][f"sync/async_run/{ri}"]
         nontrivial = isinstance(ref, dict) and (ref.get("allowed") or ref.get("reason") not in ("no_match", "action_mismatch"))
-        for mode in ("sync", "async"):
+        for mode in ("sync", "async", "awaitable"):
             for fl in FLAVOURS:
                 k = f"{mode}/{fl}/{ri}"
                 if k not in dec:
